@@ -5,6 +5,7 @@
 -/
 import BufrModel.Msg.TableDef
 import BufrModel.Lemmas.PathDigits
+import BufrModel.Lemmas.TableDefExtract
 namespace Bufr.C20
 open Bufr Bufr.TableDef Bufr.PathLang
 
@@ -263,5 +264,89 @@ example :
     fixNcep [.seq 360002 [.delayedRep 101000 (.elem drf8) []], .seq 362002 [.elem (strElem 1 3)], .op 201000] =
       .ok [.delayedRep 101000 (.elem drf8) [.seq 362002 [.elem (strElem 1 3)]], .op 201000] :=
   C20_fix_ncep_simple _ _ _ _ _ (by decide) (by decide) (by decide)
+
+end Bufr
+
+/-! ## 4. extraction inverts the NCEP layout -/
+namespace Bufr
+open Bufr.TableDef Bufr.C20
+
+/-- the entries (and ignored Table A fields) a definition message in the NCEP layout can carry:
+    field widths (1+2+3 characters of F/X/Y, two 32-character name lines, 24-character unit, 3-digit
+    scale, 10-digit reference, 3-digit width, 64-character sequence name, 6-character members, 8-bit
+    counts), ASCII, and no white space where the processor strips it -/
+structure Encodable (aVals : List Val) (bs : List BEntry) (ds : List DEntry) : Prop where
+  a_triples : aVals.length % 3 = 0
+  a_count : aVals.length / 3 ≤ 255
+  b_count : bs.length ≤ 255
+  d_count : ds.length ≤ 255
+  b_ok : ∀ e ∈ bs, EncB e
+  d_ok : ∀ e ∈ ds, EncD e
+
+/-- `BufrTableDefinitionProcessor.process` returns exactly the entries that were laid out in the
+    definition message (`itemsOf`: the flat decoded values of the template `ncepTemplate`), in order. -/
+theorem C20_extract_inverse (aVals : List Val) (bs : List BEntry) (ds : List DEntry)
+    (h : Encodable aVals bs ds) : extract ncepTemplate (itemsOf aVals bs ds) = .ok (bs, ds) := by
+  have hk : aVals.length = 3 * (aVals.length / 3) := by have := h.a_triples; omega
+  have hn := flatMap_bVals_length bs
+  have hA : flatIds (membersOf nodeA) = idsA := rfl
+  have hB : flatIds (membersOf nodeB) = idsB := rfl
+  have hD : flatIds (membersOf nodeD) = idsD := rfl
+  have hbs := repeatM_flatMap bEntry bVals EncB (fun a rest ha => bEntry_bVals a ha rest) bs h.b_ok
+  have hds := repeatM_flatMap dEntry dVals EncD (fun a rest ha => dEntry_dVals a ha rest) ds h.d_ok
+  rw [itemsOf_nf]
+  generalize hkk : aVals.length / 3 = k at *
+  unfold extract ncepTemplate
+  simp only [hA, hB, hD, ne_eq, not_true_eq_false, if_false]
+  unfold nodeA nodeB nodeD
+  simp only [nRepeats, List.getElem?_cons_zero, Int.natCast_nonneg, Int.not_lt.mpr, if_false, Int.toNat_natCast,
+    ok_bind, if_true, idxB _ _ _ _ _ hk, idxD _ _ _ _ _ _ _ _ hk hn, dropA _ _ _ _ hk, skip1, hbs, hds]
+  rfl
+
+end Bufr
+
+namespace Bufr
+open Bufr.TableDef Bufr.C20
+
+/-- consequence for the tables: what the following messages are decoded with is the file tables
+    updated by exactly the laid-out entries (when their keys / members are numeric) -/
+theorem C20_definitions_govern (T : Tables) (aVals : List Val) (bs : List BEntry) (ds : List DEntry)
+    (h : Encodable aVals bs ds) (es : Entries) (hes : toEntries bs ds = .ok es) (id : Nat) :
+    (extract ncepTemplate (itemsOf aVals bs ds) >>= fun p => toEntries p.1 p.2).map (fun es' => (extend T es').b id)
+      = .ok ((es.lookupB id).orElse fun _ => T.b id) := by
+  rw [C20_extract_inverse aVals bs ds h]
+  show (toEntries bs ds).map _ = _
+  rw [hes]
+  show Except.ok ((extend T es).b id) = _
+  rw [(C20_lookup_extended T es id).1]
+
+/-- non-vacuity: the first Table B entry of tests/data/prepbufr.bufr (0-63-000 BYTCNT, 16 bits),
+    CLAT (scale +2, reference -9000, 15 bits) and the replication-only sequence 3-60-001 -/
+def exB1 : BEntry := ⟨"063000".toList, "BYTCNT".toList, "BYTES".toList, 0, 0, 16⟩
+def exB2 : BEntry := ⟨"005002".toList, "CLAT     TABLE B ENTRY - LATITUDE".toList, "DEG N".toList, 2, -9000, 15⟩
+def exD1 : DEntry := ⟨"360001".toList, "DRP16BIT".toList, ["101000".toList, "031002".toList]⟩
+
+example : extract ncepTemplate (itemsOf [] [exB1, exB2] [exD1]) = .ok ([exB1, exB2], [exD1]) := by decide +kernel
+
+example : Encodable [] [exB1] [exD1] := by
+  refine ⟨by decide, by decide, by decide, by decide, ?_, ?_⟩
+  · intro e he
+    simp only [List.mem_singleton] at he
+    subst he
+    refine ⟨by decide, ?_, by decide, ?_, ?_, ?_, by decide, ?_, ?_, ?_, by decide, by decide, by decide, by decide⟩ <;>
+      (intro c hc; revert c; decide)
+  · intro e he
+    simp only [List.mem_singleton] at he
+    subst he
+    refine ⟨by decide, ?_, by decide, ?_, ?_, by decide, ?_, ?_⟩
+    · intro c hc; revert c; decide
+    · intro c hc; revert c; decide
+    · intro c hc; revert c; decide
+    · intro m hm
+      simp only [exD1, List.mem_cons, List.not_mem_nil, or_false] at hm
+      rcases hm with hm | hm <;> (subst hm; intro c hc; revert c; decide)
+    · intro m hm
+      simp only [exD1, List.mem_cons, List.not_mem_nil, or_false] at hm
+      rcases hm with hm | hm <;> (subst hm; decide)
 
 end Bufr
